@@ -137,6 +137,7 @@ type gen struct {
 	nbranch  int
 	ntag     int
 	pending  []string // statements queued by a multi-statement pattern
+	pkSecond map[string]bool
 }
 
 var tablePool = []string{"t", "u", "v"}
@@ -225,13 +226,25 @@ func (g *gen) dml(m *mstate) string {
 		n := hx.Pick(g.r, free)
 		nc := g.r.Range(1, 3)
 		parts := []string{"create", n}
-		if g.r.Chance(1, 2) {
-			// the key column is not the leading column
-			parts = append(parts, fmt.Sprintf("pk@%d", g.r.Range(1, nc)))
+		// Per table name the key column is either the leading column or the second one, after an int
+		// column — fixed for the whole program: dolt derives the key column's tag from the kinds of the
+		// columns declared before it, and a table re-created with another key tag is a different key set
+		// (outside the model; cherry-picking across such a change even panics in dolt, see design/C32.md).
+		second := g.pkSecond[n]
+		if _, ok := g.pkSecond[n]; !ok {
+			second = g.r.Chance(1, 2)
+			g.pkSecond[n] = second
+		}
+		if second {
+			parts = append(parts, "pk@1")
 		}
 		for i := 0; i < nc; i++ {
 			g.usedCols[n]++
-			parts = append(parts, fmt.Sprintf("c%d:%s", g.usedCols[n], hx.Pick(g.r, []string{"int", "str"})))
+			ty := hx.Pick(g.r, []string{"int", "str"})
+			if second && i == 0 {
+				ty = "int"
+			}
+			parts = append(parts, fmt.Sprintf("c%d:%s", g.usedCols[n], ty))
 		}
 		return strings.Join(parts, " ")
 	}
@@ -262,7 +275,13 @@ func (g *gen) dml(m *mstate) string {
 		return fmt.Sprintf("addcol %s c%d %s", t.Name, g.usedCols[t.Name], hx.Pick(g.r, []string{"int", "str"}))
 	case x < 96:
 		if len(t.Cols) > 1 {
-			return fmt.Sprintf("dropcol %s %s", t.Name, hx.Pick(g.r, t.Cols).Name)
+			cands := t.Cols
+			if g.pkSecond[t.Name] {
+				// never the column declared before the key: cherry-picking such a commit corrupts the
+				// table in dolt (known finding C31/cherry-pick/drop-column-before-key, fixed witness)
+				cands = t.Cols[1:]
+			}
+			return fmt.Sprintf("dropcol %s %s", t.Name, hx.Pick(g.r, cands).Name)
 		}
 		return fmt.Sprintf("del %s %d", t.Name, g.pk(t, true))
 	default:
@@ -323,7 +342,13 @@ func (g *gen) pattern(m *mstate) bool {
 			for _, n := range tablePool {
 				if findTable(m.W, n) == nil && findTable(m.H, n) == nil {
 					g.usedCols[n]++
-					g.pending = append(g.pending, fmt.Sprintf("create %s c%d:int", n, g.usedCols[n]), fmt.Sprintf("ins %s 1 i1", n))
+					pk := ""
+					if second, ok := g.pkSecond[n]; ok && second {
+						pk = "pk@1 "
+					} else {
+						g.pkSecond[n] = false
+					}
+					g.pending = append(g.pending, fmt.Sprintf("create %s %sc%d:int", n, pk, g.usedCols[n]), fmt.Sprintf("ins %s 1 i1", n))
 					break
 				}
 			}
@@ -574,6 +599,10 @@ func (rn *runner) runProgram(g *gen, replay []string, steps int) {
 			return
 		}
 		if mres != ires {
+			// let the property oracles judge what dolt did, on dolt's own state
+			if d, err := im.dump(); err == nil && !strings.Contains(d, "?") {
+				ora.after(line, ires, pre, parseDump(d), kc, replay != nil)
+			}
 			e.Rep.Disagree(kc, ires+" ["+out.class+"] "+out.msg, res, "result class")
 			return
 		}
@@ -655,7 +684,7 @@ func main() {
 	witnesses(rn)
 	progs := e.N(20, 300)
 	for p := 0; p < progs; p++ {
-		g := &gen{r: e.Rng.Fork(), prop: *prop, usedCols: map[string]int{}}
+		g := &gen{r: e.Rng.Fork(), prop: *prop, usedCols: map[string]int{}, pkSecond: map[string]bool{}}
 		steps := g.r.Range(25, 60)
 		msg := hx.Recover(func() string { rn.runProgram(g, nil, steps); return "" })
 		if msg != "" {
